@@ -16,6 +16,21 @@ func init() {
 	verifHarnesses["VerifC14_HTTPReplies"] = VerifC14_HTTPReplies
 }
 
+// verifServe runs the NATS server as it really runs (Serve in a goroutine, requests
+// arriving through its subscription, Stop draining them) on the given requests. The
+// harnesses go through Serve rather than calling processFrame directly so that they
+// do not depend on where the server sets its per-request state up.
+func verifServe(srv FServer, b *verifNatsBroker, msgs ...verifPub) {
+	served := make(chan error, 1)
+	go func() { served <- srv.Serve() }()
+	verifBlockUntil(func() bool { return len(b.subs) >= 1 })
+	for _, m := range msgs {
+		b.inject("svc", m.reply, m.data)
+	}
+	verifAssert(srv.Stop() == nil, "Stop returns")
+	verifAssert(<-served == nil, "Serve returns")
+}
+
 func verifPublishedTo(b *verifNatsBroker, subject string) [][]byte {
 	var out [][]byte
 	for _, p := range b.published {
@@ -29,40 +44,75 @@ func verifPublishedTo(b *verifNatsBroker, subject string) [][]byte {
 func VerifC14_NatsServerReplies() {
 	h := &verifPingHandler{}
 	b := newVerifBroker()
-	srv := NewFNatsServerBuilder(&nats.Conn{}, verifPingProcessor(h), NewFProtocolFactory(thrift.NewTBinaryProtocolFactoryDefault()), []string{"svc"}).Build().(*fNatsServer)
-	for round := 0; round < 2; round++ {
-		kind := verifParam()
-		if round == 1 {
-			kind = verifReqKnown
+	srv := NewFNatsServerBuilder(&nats.Conn{}, verifPingProcessor(h), NewFProtocolFactory(thrift.NewTBinaryProtocolFactoryDefault()), []string{"svc"}).Build()
+	type round struct {
+		kind, outcome int
+		appType       int32
+		arg           string
+		fctx          FContext
+	}
+	var rs []round
+	var msgs []verifPub
+	for i := 0; i < 2; i++ {
+		r := round{kind: verifParam(), outcome: verifChoice(verifOutcomes), appType: int32(verifRange(0, 200)), arg: verifStr(verifChoice(verifBound() + 1)), fctx: NewFContext("cid" + string(rune('0'+i)))}
+		if i == 1 {
+			r.kind = verifReqKnown
 		}
-		outcome := verifChoice(verifOutcomes)
-		appType := int32(verifRange(0, 200))
-		h.outcome = verifOutcome(outcome, appType)
-		arg := verifStr(verifChoice(verifBound() + 1))
-		fctx := NewFContext("cid")
-		frame := prependFrameSize(verifRequestFrame(fctx, kind, arg))
-		calls := h.calls
-		subj := "reply" + string(rune('0'+round))
-		err := srv.processFrame(&frameWrapper{frameBytes: frame, reply: subj, ephemeralProperties: map[interface{}]interface{}{}})
-		got := verifPublishedTo(b, subj)
-		if kind == verifReqTruncatedArgs && h.calls == calls && len(got) == 0 {
+		rs = append(rs, r)
+		msgs = append(msgs, verifPub{subject: "svc", reply: "reply" + string(rune('0'+i)), data: prependFrameSize(verifRequestFrame(r.fctx, r.kind, r.arg))})
+	}
+	// the handler's outcome is the one of the request it is called for (told apart by the correlation id)
+	cur := 0
+	h.onCall = func(c FContext) {
+		cur = 0
+		if c.CorrelationID() == "cid1" {
+			cur = 1
+		}
+	}
+	h.outcome = func(a string) (string, error) { return verifOutcome(rs[cur].outcome, rs[cur].appType)(a) }
+	verifServe(srv, b, msgs...)
+	calls := 0
+	for i, r := range rs {
+		got := verifPublishedTo(b, "reply"+string(rune('0'+i)))
+		if r.kind == verifReqTruncatedArgs && len(got) == 0 {
 			verifReach("undecodable-begin")
 			continue
 		}
-		verifAssert(err == nil, "processFrame reports no error once the reply has been handed to NATS")
-		if kind == verifReqOneway && outcome == verifOutValue {
-			verifAssert(len(got) == 0, "a successful oneway request publishes nothing")
-			verifAssert(h.calls == calls+1, "the handler ran exactly once")
-			continue
-		}
-		if kind == verifReqOneway {
-			verifAssert(len(got) <= 1 && h.calls == calls+1, "oneway: handler once, at most one error reply")
+		if r.kind == verifReqOneway {
+			verifAssert(len(got) <= 1, "oneway: at most one error reply")
+			if r.outcome == verifOutValue {
+				verifAssert(len(got) == 0, "a successful oneway request publishes nothing")
+			}
+			calls++
 			continue
 		}
 		verifAssert(len(got) == 1, "exactly one message is published to the request's reply subject")
-		verifCheckReply(got[0], fctx, kind, outcome, appType, arg, h, calls)
+		if r.kind == verifReqKnown {
+			calls++
+		}
+		rep, rest, ok := verifParseReply(got[0])
+		verifAssert(ok && len(rest) == 0, "which is exactly one well-formed reply frame")
+		verifAssert(rep.opid == verifOpID(r.fctx) && rep.cid == r.fctx.CorrelationID(), "carrying the request's op id and correlation id")
+		switch r.kind {
+		case verifReqUnknownMethod:
+			verifAssert(rep.mtype == thrift.EXCEPTION && rep.appType == APPLICATION_EXCEPTION_UNKNOWN_METHOD, "unknown method -> UNKNOWN_METHOD exception")
+		case verifReqKnown:
+			switch r.outcome {
+			case verifOutValue:
+				verifAssert(rep.mtype == thrift.REPLY && rep.success != nil && *rep.success == "re:"+r.arg, "success -> REPLY with the value")
+			case verifOutDeclared:
+				verifAssert(rep.mtype == thrift.REPLY && rep.failure != nil && rep.failure.msg == "d"+r.arg, "declared exception -> REPLY with the exception field")
+			case verifOutUndeclared:
+				verifAssert(rep.mtype == thrift.EXCEPTION && rep.appType == APPLICATION_EXCEPTION_INTERNAL_ERROR, "undeclared error -> INTERNAL_ERROR exception")
+			case verifOutAppException:
+				verifAssert(rep.mtype == thrift.EXCEPTION && rep.appType == r.appType, "application exception -> the handler's own type")
+			}
+		}
 	}
 	verifAssert(len(b.published) == len(verifPublishedTo(b, "reply0"))+len(verifPublishedTo(b, "reply1")), "nothing is published anywhere else")
+	if rs[0].kind != verifReqTruncatedArgs && rs[0].kind != verifReqWrongTypeArgs {
+		verifAssert(h.calls == calls, "the handler ran exactly once per request that names a known method")
+	}
 	verifReach("end")
 }
 
